@@ -53,6 +53,13 @@ def make_case(rng, ops=ALLOPS, depth=None, storages=("local", "array")):
             regs.append((rng.choice(["r", "sr", "w", "sw"]), rng.choice([2, 3, 4, 5])))
             reginit[regs[0][1]] = rng.choice([rng.randint(-100, 100), rng.randint(-100, 100), rng.randrange(2 ** 31)])
         kind, no = rng.choice(regs)
+        if rng.random() < 0.25:
+            # register 0 (its value is copied to d afterwards, because the program ends by loading its exit code into r0)
+            if not any(n == 0 for _, n in regs):
+                regs.append((kind, 0))
+                reginit[0] = rng.choice([7, -7, rng.randint(-100, 100), rng.randrange(2 ** 31)])
+            kind, no = [(k, n) for k, n in regs if n == 0][0]
+            decls[-1] = ("d", decls[-1][1], REGFMT[kind])
         case["regdest"] = [kind, no]
         if rng.random() < 0.75:
             names = [n for n, _, _ in decls[:-1]]
@@ -83,6 +90,8 @@ def statements(case):
     st = [["set", ["r", "r", no], ["c", v]] for no, v in sorted(case["reginit"].items())]
     if case.get("regdest"):
         st.append(["set", ["r", case["regdest"][0], case["regdest"][1]], case["expr"]])
+        if case["regdest"][1] == 0:
+            st.append(["set", ["v", case["dest"]], ["r", case["regdest"][0], 0]])
     else:
         st.append(["set", ["v", case["dest"]], case["expr"]])
     return st
@@ -122,6 +131,9 @@ class GenCheck(Check):
         """fills case['_built'], case['_run'] (decoded final state) for all cases; one Coq batch"""
         terms, idx = [], []
         for i, c in enumerate(cases):
+            # every program is generated twice in this process (two program objects of one fresh class) and the SECOND one is
+            # executed: whatever the generator remembers between programs must not change the code
+            dsl.build(c["decls"], self.stmts(c), xdp_min=c.get("xdp_min"))
             b = dsl.build(c["decls"], self.stmts(c), xdp_min=c.get("xdp_min"))
             c["_built"] = b
             c["_run"] = None
@@ -341,7 +353,7 @@ class C01(GenCheck):
         if status != [1]:
             return Err(7, f"program did not exit normally: status {status}")
         amap = maps[0] if maps else []
-        if case.get("regdest"):
+        if case.get("regdest") and case["regdest"][1] != 0:
             f = dest_fmt(case)
             return {"dest": dsl.from_bytes(f, dsl.to_bytes(f, regs[case["regdest"][1]])),
                     "others": {n: read_var(n, b, stack, amap) for n in b.layout}}
